@@ -3,6 +3,7 @@ package rules
 import (
 	"sort"
 	"strings"
+	"verifchecker/internal/engine"
 
 	"golang.org/x/tools/go/ssa"
 )
@@ -127,7 +128,7 @@ func (c *Ctx) uidRegistryExcludesUID() bool {
 	f := c.fnOpt("imap/command.NewUIDCommandParser")
 	if f == nil {
 		for _, g := range c.funcsInPkg("imap/command") {
-			if strings.Contains(g.Name(), "UIDCommandParser") && strings.HasPrefix(g.Name(), "New") {
+			if strings.Contains(engine.ShortName(g), "UIDCommandParser") && strings.HasPrefix(engine.ShortName(g), "New") {
 				f = g
 			}
 		}
